@@ -22,7 +22,7 @@ From Erbium Require Import Lib.Base.
 
 (* what a waiter (the oneshot channel of one [send_query_to] call) receives *)
 Inductive dres :=
-| RReply (orig wire : N)      (* Ok(reply): the reply read from the wire with id [wire], handed over with qid [orig] *)
+| RReply (orig wire rq : N)   (* Ok(reply): the reply read from the wire with id [wire] and question [rq], handed over with qid [orig] *)
 | RErrSend                    (* Error::FailedToSend: connect failed *)
 | RErrTcp                     (* Error::TcpConnection: connection torn down before the reply *)
 | RErrInternal.               (* Error::Internal: the task is gone (channel send/recv failed), or too many in flight *)
@@ -32,8 +32,8 @@ Inductive dres :=
 Inductive io := IoOk | IoConnFail | IoWriteFail.
 
 Inductive dev :=
-| Submit (w id : N) (i : io)  (* a TcpNameserverMessage from waiter [w] whose query carries id [id] *)
-| Arrive (wire : N)           (* a well-formed reply with qid [wire] was read from the connection *)
+| Submit (w id q : N) (i : io)  (* a TcpNameserverMessage from waiter [w] whose query carries id [id] and question [q] *)
+| Arrive (wire rq : N)          (* a well-formed reply with qid [wire] and question [rq] was read from the connection *)
 | ConnError.                  (* read error / EOF / either 120 s idle timer *)
 
 Inductive dout :=
@@ -43,9 +43,12 @@ Inductive dout :=
 Definition io_eqb (a b : io) : bool :=
   match a, b with IoOk, IoOk | IoConnFail, IoConnFail | IoWriteFail, IoWriteFail => true | _, _ => false end.
 
-(* ---- repaired code: qid2reply : wire id -> (caller's id, waiter) ------- *)
-Record dstate := { d_map : list (N * (N * N)); d_conn : bool }.
-Definition d_init : dstate := {| d_map := []; d_conn := false |}.
+(* ---- repaired code: qid2reply : wire id -> (caller's id, question, waiter);
+   the question is kept in [d_qs], a second map with the same keys.  Questions
+   are numbers: equal numbers = same class, type and (ASCII case-folded) name,
+   which is what [same_question] compares. *)
+Record dstate := { d_map : list (N * (N * N)); d_qs : list (N * N); d_conn : bool }.
+Definition d_init : dstate := {| d_map := []; d_qs := []; d_conn := false |}.
 
 Fixpoint map_find {V} (k : N) (m : list (N * V)) : option V :=
   match m with
@@ -71,30 +74,37 @@ Fixpoint probe {V} (fuel : nat) (id : N) (m : list (N * V)) : option N :=
 Definition teardown (m : list (N * (N * N))) : list dout :=
   map (fun e => Deliver (snd (snd e)) RErrTcp) m.
 
+Definition question_matches (wire rq : N) (qs : list (N * N)) : bool :=
+  match map_find wire qs with Some q => q =? rq | None => false end.
+
 Definition demux_step (s : dstate) (e : dev) : dstate * list dout :=
   match e with
-  | Submit w id i =>
+  | Submit w id q i =>
     if negb (d_conn s) && io_eqb i IoConnFail then (s, [Deliver w RErrSend])
     else if 65536 <=? lenN (d_map s)
-    then ({| d_map := d_map s; d_conn := true |}, [Deliver w RErrInternal])
+    then ({| d_map := d_map s; d_qs := d_qs s; d_conn := true |}, [Deliver w RErrInternal])
     else
       match probe (S (length (d_map s))) id (d_map s) with
-      | None => ({| d_map := d_map s; d_conn := true |}, [Deliver w RErrInternal])   (* not reachable *)
+      | None => ({| d_map := d_map s; d_qs := d_qs s; d_conn := true |}, [Deliver w RErrInternal])   (* not reachable *)
       | Some wire =>
         let m' := (wire, (id, w)) :: d_map s in
         if io_eqb i IoWriteFail
-        then ({| d_map := []; d_conn := false |}, teardown m')
-        else ({| d_map := m'; d_conn := true |}, [Sent w wire])
+        then ({| d_map := []; d_qs := []; d_conn := false |}, teardown m')
+        else ({| d_map := m'; d_qs := (wire, q) :: d_qs s; d_conn := true |}, [Sent w wire])
       end
-  | Arrive wire =>
+  | Arrive wire rq =>
     if d_conn s then
       match map_find wire (d_map s) with
-      | Some (orig, w) => ({| d_map := map_remove wire (d_map s); d_conn := true |}, [Deliver w (RReply orig wire)])
+      | Some (orig, w) =>
+        if question_matches wire rq (d_qs s)
+        then ({| d_map := map_remove wire (d_map s); d_qs := map_remove wire (d_qs s); d_conn := true |},
+              [Deliver w (RReply orig wire rq)])
+        else (s, [])                            (* "Dropping reply to a question not asked" *)
       | None => (s, [])                         (* "Sending reply to unknown request": logged, dropped *)
       end
     else (s, [])
   | ConnError =>
-    if d_conn s then ({| d_map := []; d_conn := false |}, teardown (d_map s)) else (s, [])
+    if d_conn s then ({| d_map := []; d_qs := []; d_conn := false |}, teardown (d_map s)) else (s, [])
   end.
 
 Fixpoint demux_run (s : dstate) (evs : list dev) : dstate * list dout :=
@@ -106,7 +116,8 @@ Fixpoint demux_run (s : dstate) (evs : list dev) : dstate * list dout :=
     (s2, o1 ++ o2)
   end.
 
-(* ---- the code as found: qid2reply : id -> waiter, assert! on collision -- *)
+(* ---- the code as found: qid2reply : id -> waiter, assert! on collision, replies
+   matched by id alone -- *)
 Record ostate := { o_map : list (N * N); o_conn : bool; o_dead : bool }.
 Definition o_init : ostate := {| o_map := []; o_conn := false; o_dead := false |}.
 
@@ -115,7 +126,7 @@ Definition oteardown (r : dres) (m : list (N * N)) : list dout :=
 
 Definition odemux_step (s : ostate) (e : dev) : ostate * list dout :=
   match e with
-  | Submit w id i =>
+  | Submit w id _ i =>
     if o_dead s then (s, [Deliver w RErrInternal])          (* channel send fails: the receiver is gone *)
     else if negb (o_conn s) && io_eqb i IoConnFail then (s, [Deliver w RErrSend])
     else if map_mem id (o_map s)
@@ -127,11 +138,11 @@ Definition odemux_step (s : ostate) (e : dev) : ostate * list dout :=
       if io_eqb i IoWriteFail
       then ({| o_map := []; o_conn := false; o_dead := false |}, oteardown RErrTcp m')
       else ({| o_map := m'; o_conn := true; o_dead := false |}, [Sent w id])
-  | Arrive wire =>
+  | Arrive wire rq =>
     if o_dead s then (s, [])
     else if o_conn s then
       match map_find wire (o_map s) with
-      | Some w => ({| o_map := map_remove wire (o_map s); o_conn := true; o_dead := false |}, [Deliver w (RReply wire wire)])
+      | Some w => ({| o_map := map_remove wire (o_map s); o_conn := true; o_dead := false |}, [Deliver w (RReply wire wire rq)])
       | None => (s, [])
       end
     else (s, [])
@@ -156,7 +167,7 @@ Fixpoint no_collision (os : ostate) (evs : list dev) : Prop :=
   | [] => True
   | e :: r =>
     match e with
-    | Submit _ id _ => map_mem id (o_map os) = false /\ lenN (o_map os) < 65536
+    | Submit _ id _ _ => map_mem id (o_map os) = false /\ lenN (o_map os) < 65536
     | _ => True
     end /\ no_collision (fst (odemux_step os e)) r
   end.
@@ -164,7 +175,7 @@ Fixpoint no_collision (os : ostate) (evs : list dev) : Prop :=
 (* ---- observation functions used by the theorems and the entry point --- *)
 Definition dres_eqb (a b : dres) : bool :=
   match a, b with
-  | RReply o1 w1, RReply o2 w2 => (o1 =? o2) && (w1 =? w2)
+  | RReply o1 w1 q1, RReply o2 w2 q2 => (o1 =? o2) && (w1 =? w2) && (q1 =? q2)
   | RErrSend, RErrSend | RErrTcp, RErrTcp | RErrInternal, RErrInternal => true
   | _, _ => false
   end.
@@ -186,8 +197,32 @@ Definition opending (w : N) (m : list (N * N)) : bool :=
 Fixpoint submissions (evs : list dev) : list (N * N) :=
   match evs with
   | [] => []
-  | Submit w id _ :: r => (w, id) :: submissions r
+  | Submit w id _ _ :: r => (w, id) :: submissions r
   | _ :: r => submissions r
+  end.
+(* ... and the question it asked *)
+Fixpoint questions (evs : list dev) : list (N * N) :=
+  match evs with
+  | [] => []
+  | Submit w _ q _ :: r => (w, q) :: questions r
+  | _ :: r => questions r
+  end.
+
+(* every reply that arrives under an id in flight answers the question that was sent
+   under that id (what an upstream that may delay, reorder, drop and repeat within the
+   lifetime of an id does; the repaired code DROPS the others, the code as found did not) *)
+Fixpoint well_answered (s : dstate) (evs : list dev) : Prop :=
+  match evs with
+  | [] => True
+  | e :: r =>
+    match e with
+    | Arrive wire rq =>
+      match map_find wire (d_map s) with
+      | Some _ => question_matches wire rq (d_qs s) = true
+      | None => True
+      end
+    | _ => True
+    end /\ well_answered (fst (demux_step s e)) r
   end.
 
 (* ===================================================================== *)
@@ -280,7 +315,7 @@ Inductive oq_result := OqReply (rid : N) (via_tcp : bool) | OqErr (e : N).
 
 Definition of_tcp (t : dres) : oq_result :=
   match t with
-  | RReply orig _ => OqReply orig true
+  | RReply orig _ _ => OqReply orig true
   | RErrSend => OqErr 1
   | RErrTcp => OqErr 3
   | RErrInternal => OqErr 5
@@ -301,6 +336,23 @@ Definition handle_query_model (client_tcp : bool) (id : N) (u : udp_res) (t : dr
          match accept_udp id rid tc with
          | Accept => OqReply rid false
          | RetryTcp => of_tcp t
+         end
+       end.
+
+(* The question whose answer ends up in the reply to the client ([None]: no upstream
+   answer, the client gets SERVFAIL).  Over UDP every attempt has its own connected
+   socket, so the reply taken was sent in response to this query's own transmission and
+   (honest upstream) answers its question [q]; over the shared TCP connection it is
+   whatever reply the Demux task handed over, with the question [rq] it carries. *)
+Definition answered_question (client_tcp : bool) (id q : N) (u : udp_res) (t : dres) : option N :=
+  let via_tcp := match t with RReply _ _ rq => Some rq | _ => None end in
+  if client_tcp then via_tcp
+  else match u with
+       | UdpErr _ => None
+       | UdpReply rid tc =>
+         match accept_udp id rid tc with
+         | Accept => Some q
+         | RetryTcp => via_tcp
          end
        end.
 
